@@ -1,1 +1,13 @@
-From WR Require Import Lib.Bits Mpq.Archive Props.C01.
+From WR Require Import Lib.Bits Mpq.Crypt Mpq.Archive Proofs.HashTable_proofs Proofs.FileLayout_proofs Props.C01.
+Open Scope N_scope.
+Definition pin_1 : forall t k L name blk, Inv t k L -> In (item_of name blk) L -> exists idx, ht_find t name = Some (idx, blk) := C01_ht_find_inserted.
+Definition pin_2 : forall t k L name,
+    Inv t k L -> ~ key_in L (hash_string name ht_name_a) (hash_string name ht_name_b) -> ht_find t name = None := C01_ht_find_absent.
+Definition pin_3 : forall (compress : N -> list N -> option (list N)) (decompress : N -> list N -> N -> option (list N))
+         (name : list N) (a : archive) (ssz : N) (crc : bool) (f : file_spec) (pos : N) (bytes : list N) (csize flags : N),
+    f_name f = name -> f_enc f < 3 -> wf_bytes (f_data f) ->
+    lenN (f_data f) <= ssz -> lenN (f_data f) < M32 ->
+    unit_contract compress decompress (f_comp f) (f_data f) ->
+    write_file compress ssz crc f pos = Some (bytes, csize, flags) ->
+    carries name a pos bytes csize (lenN (f_data f)) flags ssz ->
+    read_file decompress a name = ROk (f_data f) := C01_single_unit_roundtrip.
